@@ -479,3 +479,40 @@ func VH_C14_identity() {
 	rt.Assert(err2 == nil || entity.IsErrNotFound(err2), "second-remove-harmless")
 	rt.Assert(len(r.Refs) == n, "second-remove-changes-nothing")
 }
+
+// ---- exported entry points for harnesses of other packages ----
+
+// VHReset clears the identity M-PACK registry.
+func VHReset() { vhReset() }
+
+// VHStoreIdentity stores an identity with n versions on the model repository and, when
+// local is set, points its local ref at the last version. With remote != "" the
+// remote-tracking ref is set too.
+func VHStoreIdentity(r *vrepo.Repo, name string, n int, local bool, remote string) *Identity {
+	var vs []*version
+	var parent repository.Hash
+	for j := 0; j < n; j++ {
+		v := &version{name: name, nonce: make([]byte, 20), unixTime: 1, id: entity.UnsetId}
+		parent = vhStoreVersion(r, v, parent)
+		vs = append(vs, v)
+	}
+	i := &Identity{versions: vs}
+	if local {
+		r.SetRef(identityRefPattern+i.Id().String(), parent)
+	}
+	if remote != "" {
+		r.SetRef(fmt.Sprintf(identityRemoteRefPattern, remote)+i.Id().String(), parent)
+	}
+	return i
+}
+
+// VHAppendVersion stores one more version of i (new name) and returns its commit hash;
+// refs are left to the caller.
+func VHAppendVersion(r *vrepo.Repo, i *Identity, name string) repository.Hash {
+	v := &version{name: name, nonce: make([]byte, 20), unixTime: 2, id: entity.UnsetId}
+	h := vhStoreVersion(r, v, i.versions[len(i.versions)-1].commitHash)
+	return h
+}
+
+func VHLocalRef(id entity.Id) string              { return identityRefPattern + id.String() }
+func VHRemoteRef(remote string, id entity.Id) string { return fmt.Sprintf(identityRemoteRefPattern, remote) + id.String() }
